@@ -320,10 +320,22 @@ func workerEnv(p *propCfg, b *build, extra ...string) []string {
 
 func workerArgs(p *propCfg, args ...string) []string {
 	if p.testBinary {
-		// a test binary: everything after -test.run goes through -args
-		return append([]string{"-test.run", "^TestWorker$", "-test.timeout", "0", "-test.v=false", "-args"}, args...)
+		// a test binary rejects foreign flags: they travel in the environment
+		// (see workerCmd)
+		return []string{"-test.run", "^TestWorker$", "-test.timeout", "0"}
 	}
 	return args
+}
+
+// workerCmd builds the command for one worker invocation.
+func workerCmd(p *propCfg, b *build, extraEnv []string, args ...string) *exec.Cmd {
+	cmd := exec.Command(b.worker, workerArgs(p, args...)...)
+	cmd.Env = workerEnv(p, b, extraEnv...)
+	if p.testBinary {
+		cmd.Env = append(cmd.Env, "VERIF_WORKER_ARGS="+strings.Join(args, "\x1f"))
+	}
+	cmd.Dir = b.scratch
+	return cmd
 }
 
 // runChunk runs cases [from,to) in one worker process.
@@ -334,9 +346,7 @@ func runChunk(p *propCfg, b *build, seed uint64, tier string, from, to uint64, i
 	args := []string{"-seed", strconv.FormatUint(seed, 10), "-from", strconv.FormatUint(from, 10), "-to", strconv.FormatUint(to, 10),
 		"-tier", tier, "-out", outFile, "-hashes", hashFile}
 	args = append(args, extraArgs...)
-	cmd := exec.Command(b.worker, workerArgs(p, args...)...)
-	cmd.Env = workerEnv(p, b)
-	cmd.Dir = b.scratch
+	cmd := workerCmd(p, b, nil, args...)
 	var stderr bytes.Buffer
 	cmd.Stderr = &stderr
 	cmd.Stdout = &stderr
@@ -415,9 +425,7 @@ func readLines(path string) []outLine {
 func queryPlan(p *propCfg, b *build, seed uint64, tier string) uint64 {
 	outFile := filepath.Join(b.scratch, "plan.jsonl")
 	args := []string{"-seed", strconv.FormatUint(seed, 10), "-tier", tier, "-out", outFile, "-plan"}
-	cmd := exec.Command(b.worker, workerArgs(p, args...)...)
-	cmd.Env = workerEnv(p, b)
-	cmd.Dir = b.scratch
+	cmd := workerCmd(p, b, nil, args...)
 	out, err := cmd.CombinedOutput()
 	if err != nil {
 		cleanupGlobal()
@@ -468,9 +476,7 @@ func shrinkOne(p *propCfg, b *build, fv *foundViolation, seed uint64, tier strin
 	out := filepath.Join(b.scratch, fmt.Sprintf("shrink-out-%d.jsonl", idx))
 	data, _ := json.Marshal(rf)
 	os.WriteFile(in, data, 0o644)
-	cmd := exec.Command(b.worker, workerArgs(p, "-shrink", in, "-out", out, "-seed", strconv.FormatUint(seed, 10), "-tier", tier)...)
-	cmd.Env = workerEnv(p, b)
-	cmd.Dir = b.scratch
+	cmd := workerCmd(p, b, nil, "-shrink", in, "-out", out, "-seed", strconv.FormatUint(seed, 10), "-tier", tier)
 	done := make(chan error, 1)
 	if err := cmd.Start(); err != nil {
 		return
@@ -766,9 +772,7 @@ func replayOnce(p *propCfg, b *build, rf *replayFile, idx int) (*violation, erro
 	data, _ := json.Marshal(rf)
 	os.WriteFile(tmp, data, 0o644)
 	outFile := filepath.Join(b.scratch, fmt.Sprintf("replay-out-%d.jsonl", idx))
-	cmd := exec.Command(b.worker, workerArgs(p, "-replay", tmp, "-out", outFile)...)
-	cmd.Env = workerEnv(p, b)
-	cmd.Dir = b.scratch
+	cmd := workerCmd(p, b, nil, "-replay", tmp, "-out", outFile)
 	var stderr bytes.Buffer
 	cmd.Stderr = &stderr
 	cmd.Stdout = &stderr
@@ -1108,9 +1112,7 @@ func selfTest(p *propCfg, b *build, seed uint64, tier string, total uint64) bool
 			outFile := filepath.Join(b.scratch, fmt.Sprintf("self-%d-%d.jsonl", gmp, rep))
 			args := []string{"-seed", strconv.FormatUint(seed, 10), "-from", "0", "-to", strconv.FormatUint(n, 10),
 				"-tier", tier, "-out", outFile, "-digest", "-noshrink"}
-			cmd := exec.Command(b.worker, workerArgs(p, args...)...)
-			cmd.Env = workerEnv(p, b, fmt.Sprintf("GOMAXPROCS=%d", gmp))
-			cmd.Dir = b.scratch
+			cmd := workerCmd(p, b, []string{fmt.Sprintf("GOMAXPROCS=%d", gmp)}, args...)
 			out, err := cmd.CombinedOutput()
 			if err != nil {
 				fmt.Fprintf(os.Stderr, "selftest: worker failed: %v\n%s\n", err, out)
